@@ -64,6 +64,20 @@ class Hist1DAdapter(Adapter):
         if sp == 1:
             return np.array(pairs)
         if allow_object:
+            if not consecutive(L) and self.spelling % 2 == 0:
+                # a derived binning object: the gaps are closed by extra bins, the parent is used (its consecutiveness and its
+                # edges are evaluated and cached), and the bins wanted are selected from it again
+                full, keep = [], []
+                for i, (l, r) in enumerate(L):
+                    if i and L[i - 1][1] != l:
+                        full.append((L[i - 1][1], l))
+                    keep.append(len(full))
+                    full.append((l, r))
+                parent = self.StaticBinning(np.array(self.pe.edges(full)))
+                assert parent.is_consecutive() and len(parent.numpy_bins) == len(full) + 1
+                if keep == list(range(0, len(full), 2)):
+                    return parent[::2]
+                return parent[keep]
             return self.StaticBinning(np.array(pairs))
         return np.array(pairs)
 
